@@ -41,6 +41,11 @@ Probes == <<
   P({"C08", "C04"}, <<97,98,115,40,38,41>>, {ErrS({"syntax"})}),
   P({"C08", "C04"}, <<97,98,115,40,97,44,41>>, {ErrS({"syntax"})}),
   P({"C08", "C04"}, <<108,101,110,103,116,104,40,97,44>>, {ErrS({"syntax"})}),
+  \* C04: a let expression is not a right-hand side of "." (but the identifier let is)
+  P({"C04", "C19"}, <<113,46,108,101,116,32,36,120,32,61,32,113,32,105,110,32,36,120>>, {ErrS({"syntax"})}),
+  P({"C04", "C19"}, <<64,46,42,46,108,101,116,32,36,120,32,61,32,64,32,105,110,32,36,120>>, {ErrS({"syntax"})}),
+  P({"C04", "C19"}, <<123,108,101,116,58,32,113,125,46,108,101,116>>, {JInt(1)}),
+  P({"C04", "C19"}, <<123,105,110,58,32,113,44,32,108,101,116,58,32,113,125,46,105,110>>, {JInt(1)}),
   \* C19: every binding of a let is evaluated (a failing one fails the let), also when a later binding repeats its name
   P({"C19"}, <<108,101,116,32,36,97,32,61,32,36,110,111,112,101,44,32,36,97,32,61,32,96,49,96,32,105,110,32,36,97>>, {Err("undefined-variable")}),
   P({"C19"}, <<108,101,116,32,36,97,32,61,32,97,98,115,40,39,120,39,41,44,32,36,97,32,61,32,96,49,96,32,105,110,32,36,97>>, {Err("invalid-type")}),
